@@ -163,19 +163,22 @@ def start (m : SeqMod) (speed0 : Int) : Option St :=
                   endPoint := geti m.scanNum 0, ftBpm := 0 }
   some (resetFlow (updateFromOrdInfo m s))
 
+/-- the reposition block of `xmp_play_frame` up to the call of `next_order` (`p->pos ∉ {-2}`) -/
+def reposPrep (m : SeqMod) (s : St) : St :=
+  let start := m.entryOf s.sequence
+  let pos1 := if s.pos = -1 then start else s.pos
+  let ep1 := if pos1 = start then geti m.scanNum s.sequence else s.endPoint
+  let ep2 := if pos1 > geti m.scanOrd s.sequence then 0 else ep1
+  let ord1 := if pos1 - 1 < start then start - 1 else pos1 - 1
+  { s with pos := pos1, endPoint := ep2, jumpline := 0, jump := -1, ord := ord1 }
+
 /-- The part of `xmp_play_frame` before "check new row": reposition or tick/row advance. -/
 def kernelPre (m : SeqMod) (s : St) : Res :=
   if m.len ≤ 0 then .fin else
   if m.marker = true ∧ m.xo s.ord = 0xff then .fin else
   if s.ord ≠ s.pos then
-    let start := m.entryOf s.sequence
     if s.pos = -2 then .fin else
-    let pos1 := if s.pos = -1 then start else s.pos
-    let ep1 := if pos1 = start then geti m.scanNum s.sequence else s.endPoint
-    let ep2 := if pos1 > geti m.scanOrd s.sequence then 0 else ep1
-    let ord1 := if pos1 - 1 < start then start - 1 else pos1 - 1
-    let s1 := { s with pos := pos1, endPoint := ep2, jumpline := 0, jump := -1, ord := ord1 }
-    match nextOrder m s1 with
+    match nextOrder m (reposPrep m s) with
     | none => .diverge
     | some s2 => .ok (updateFromOrdInfo m s2)
   else
@@ -254,23 +257,32 @@ def skipMarker (m : SeqMod) (start dir : Int) : Nat → Int → Int
         if pos + 1 ≥ m.len then pos + 1 else skipMarker m start dir fuel (pos + 1)
     else pos
 
+/-- the `if (pat < mod->pat) { … }` block of `set_position`; `none` = the early `return` on a
+0xff marker -/
+def spBlock (m : SeqMod) (s1 : St) (seq pos' : Int) : Option St :=
+  let patv := if pos' < m.len then m.xo pos' else 0xff
+  if patv < m.pat then
+    if m.marker = true ∧ patv = 0xff then none
+    else if pos' > geti m.scanOrd seq then some { s1 with endPoint := 0 }
+    else some { s1 with numRows := m.rowsOf patv, endPoint := geti m.scanNum seq, jumpline := 0 }
+  else some s1
+
+/-- the final `if (pos < mod->len) { p->pos = …; libxmp_reset_flow(ctx); }` of `set_position` -/
+def spCommit (m : SeqMod) (s2 : St) (pos' : Int) : St :=
+  if pos' < m.len then resetFlow { s2 with pos := if pos' = 0 then -1 else pos' } else s2
+
 /-- `set_position(ctx, pos, dir)` -/
 def setPosition (m : SeqMod) (s : St) (pos dir : Int) : St :=
   let seq := if dir = 0 then geti m.seqCtl pos else s.sequence
   if seq = 0xff then s else
   if seq < 0 then s else
-  let start := m.entryOf seq
   let s1 := { s with sequence := seq }
-  let inRange := decide (0 ≤ pos ∧ pos < m.len)
-  let pos' := if inRange then skipMarker m start dir 258 pos else pos
-  let patv := if pos' < m.len then m.xo pos' else 0xff
-  if inRange = true ∧ patv < m.pat ∧ m.marker = true ∧ patv = 0xff then s1 else
-  let s2 :=
-    if inRange = true ∧ patv < m.pat then
-      if pos' > geti m.scanOrd seq then { s1 with endPoint := 0 }
-      else { s1 with numRows := m.rowsOf patv, endPoint := geti m.scanNum seq, jumpline := 0 }
-    else s1
-  if pos' < m.len then resetFlow { s2 with pos := if pos' = 0 then -1 else pos' } else s2
+  if 0 ≤ pos ∧ pos < m.len then
+    let pos' := skipMarker m (m.entryOf seq) dir 258 pos
+    match spBlock m s1 seq pos' with
+    | none => s1
+    | some s2 => spCommit m s2 pos'
+  else spCommit m s1 pos
 
 /-- `xmp_next_position` -/
 def nextPosition (m : SeqMod) (s : St) : St :=
